@@ -1,7 +1,7 @@
 (* C20P.v — invariants of the lock service model (model/Lock.v) over arbitrary message histories,
    and the oracle of run/Run_C20.v on the model's own behaviour. *)
 From Coq Require Import Permutation.
-From DV Require Import Run_C20 C20Scan.
+From DV Require Import Run_C20 C20Scan C20ConnFacts.
 Open Scope N_scope.
 Open Scope nat_scope.
 
@@ -562,34 +562,34 @@ Proof.
   induction tr as [|m tl IH]; intros s; [reflexivity|]. cbn [run_from]. destruct (step s m). cbn [length]. rewrite IH. reflexivity.
 Qed.
 
-Lemma spec_pair_run : forall c, let '(max, tr) := trace_of c in
-  spec_pair c (run_C20 c) = spec_from max sp0 tr (map sort_g (run_from (init max) tr)).
+Lemma spec_pair_run : forall max tr,
+  spec_pair_lock max tr (run_lock max tr) = spec_from max sp0 tr (map sort_g (run_from (init max) tr)).
 Proof.
-  intros c. destruct (trace_of c) as [max tr] eqn:E. unfold spec_pair, run_C20, run_grants. rewrite E.
+  intros max tr. unfold spec_pair_lock, run_lock.
   rewrite <- (run_from_length tr (init max)), <- (map_length sort_g), decode_encode. reflexivity.
 Qed.
 
 (* once per request, never lost: for EVERY history *)
-Theorem live_always : forall c, snd (spec_pair c (run_C20 c)) = true.
+Theorem live_always : forall max tr, snd (spec_pair_lock max tr (run_lock max tr)) = true.
 Proof.
-  intros c. pose proof (spec_pair_run c) as H. destruct (trace_of c) as [max tr]. rewrite H.
+  intros max tr. rewrite spec_pair_run.
   apply (history_ok tr max (init max) sp0 [] _ (J0_init max) (wake_init max) (Forall2_sort _)).
 Qed.
 (* exclusive and bounded: for every history without a release by a non-holder that frees a locked room *)
-Theorem safe_unless_foreign : forall c, foreign_unlock c = false -> fst (spec_pair c (run_C20 c)) = true.
+Theorem safe_unless_foreign : forall max tr, foreign_lock max tr = false -> fst (spec_pair_lock max tr (run_lock max tr)) = true.
 Proof.
-  intros c Hf. pose proof (spec_pair_run c) as H. unfold foreign_unlock in Hf. destruct (trace_of c) as [max tr]. rewrite H.
+  intros max tr Hf. rewrite spec_pair_run. unfold foreign_lock in Hf.
   apply (history_ok tr max (init max) sp0 [] _ (J0_init max) (wake_init max) (Forall2_sort _)).
   - unfold J8. cbn. constructor.
   - exact Hf.
 Qed.
 
-Theorem outside_known : forall c, known_C20 c = [] -> spec_C20 c (run_C20 c) = true.
+Theorem outside_known : forall max tr, known_C20 (CLock max tr) = [] -> spec_C20 (CLock max tr) (run_C20 (CLock max tr)) = true.
 Proof.
-  intros c Hk. unfold known_C20 in Hk. rewrite (live_always c), andb_true_r in Hk.
-  destruct (foreign_unlock c) eqn:Ef; [discriminate|].
-  unfold spec_C20. pose proof (live_always c) as Hl. pose proof (safe_unless_foreign c Ef) as Hs.
-  destruct (spec_pair c (run_C20 c)) as [a b]. cbn [fst snd] in *. subst. reflexivity.
+  intros max tr Hk. cbn [known_C20 spec_C20 run_C20] in *. unfold known_lock in Hk. rewrite (live_always max tr), andb_true_r in Hk.
+  destruct (foreign_lock max tr) eqn:Ef; [discriminate|].
+  pose proof (live_always max tr) as Hl. pose proof (safe_unless_foreign max tr Ef) as Hs.
+  destruct (spec_pair_lock max tr (run_lock max tr)) as [a b]. cbn [fst snd] in *. subst. reflexivity.
 Qed.
 
 (* ------------------------------------------------------------------ statements about the service state itself *)
@@ -629,14 +629,280 @@ Proof.
   apply memN_false. intros Hin. apply removeN_In in Hin. destruct Hin as [_ Hne]. apply Hne. reflexivity.
 Qed.
 
+(* ------------------------------------------------------------------ connections on top of the service *)
+Definition no12 (l : list Z) : Prop := existsb (Z.eqb 1) l = false /\ existsb (Z.eqb 2) l = false.
+Lemma no12_app : forall a b, no12 (a ++ b) -> no12 a /\ no12 b.
+Proof.
+  intros a b [H1 H2]. rewrite existsb_app in H1, H2. apply orb_false_iff in H1, H2. unfold no12. tauto.
+Qed.
+
+(* what a connection holds: grants waiting in its channel and rooms of its running tasks *)
+Definition items (cn : conn) : list (N * N) := map (pair (cn_c cn)) (cn_inbox cn ++ cn_tasks cn).
+Definition flat (cs : list conn) : list (N * N) := flat_map items cs.
+Definition other (c : N) (cs : list conn) : list conn := filter (fun y => negb (N.eqb (cn_c y) c)) cs.
+Record CInv (cs : list conn) (h : list (N * N)) : Prop := {
+  ci_nd : NoDup (map cn_c cs);
+  ci_h : Permutation h (flat cs);
+  ci_acq : forall cn, In cn cs -> incl (cn_acq cn) (cn_tasks cn) }.
+
+Lemma find_conn_c : forall cs c, cn_c (find_conn cs c) = c.
+Proof.
+  intros cs c. unfold find_conn. destruct (find (fun x => N.eqb (cn_c x) c) cs) as [x|] eqn:E; [|reflexivity].
+  apply find_some in E. destruct E as [_ E]. apply N.eqb_eq in E. exact E.
+Qed.
+Lemma other_absent : forall c cs, ~ In c (map cn_c cs) -> other c cs = cs.
+Proof.
+  intros c. induction cs as [|y t IH]; intros H; [reflexivity|]. cbn [other filter map] in *.
+  destruct (N.eqb (cn_c y) c) eqn:E.
+  - apply N.eqb_eq in E. exfalso. apply H. left. exact E.
+  - cbn [negb]. f_equal. apply IH. intros Hin. apply H. right. exact Hin.
+Qed.
+Lemma flat_split : forall cs c, NoDup (map cn_c cs) ->
+  Permutation (flat cs) (items (find_conn cs c) ++ flat (other c cs)).
+Proof.
+  induction cs as [|y t IH]; intros c Hnd; [unfold find_conn; cbn; constructor|].
+  cbn [map] in Hnd. inversion Hnd as [|? ? Hny Hnt]; subst. unfold find_conn. cbn [find other filter].
+  destruct (N.eqb (cn_c y) c) eqn:E; cbn [negb].
+  - apply N.eqb_eq in E. subst c. fold (other (cn_c y) t). rewrite (other_absent _ _ Hny). apply Permutation_refl.
+  - fold (other c t). specialize (IH c Hnt). unfold find_conn in IH. unfold flat in *. cbn [flat_map].
+    eapply perm_trans; [apply Permutation_app_head; exact IH|].
+    rewrite !app_assoc. apply Permutation_app_tail. apply Permutation_app_comm.
+Qed.
+Lemma flat_split' : forall cs c, NoDup (map cn_c cs) ->
+  Permutation (flat cs) (map (pair c) (cn_inbox (find_conn cs c) ++ cn_tasks (find_conn cs c)) ++ flat (other c cs)).
+Proof.
+  intros cs c H. pose proof (flat_split cs c H) as Hs. unfold items at 1 in Hs. rewrite (find_conn_c cs c) in Hs. exact Hs.
+Qed.
+Lemma other_ids : forall c cs, ~ In c (map cn_c (other c cs)).
+Proof.
+  intros c cs H. apply in_map_iff in H. destruct H as (y & Hy & Hin). apply filter_In in Hin. destruct Hin as [_ Hin].
+  apply negb_true_iff in Hin. apply N.eqb_neq in Hin. contradiction.
+Qed.
+Lemma other_nodup : forall c cs, NoDup (map cn_c cs) -> NoDup (map cn_c (other c cs)).
+Proof.
+  intros c. induction cs as [|y t IH]; intros H; [constructor|]. cbn [map] in H. inversion H as [|? ? Hny Hnt]; subst.
+  cbn [other filter]. destruct (negb (N.eqb (cn_c y) c)); [|apply IH; exact Hnt]. cbn [map]. constructor; [|apply IH; exact Hnt].
+  intros Hin. apply Hny. apply in_map_iff in Hin. destruct Hin as (z & Hz & Hin). apply filter_In in Hin. rewrite <- Hz. apply in_map. tauto.
+Qed.
+Lemma find_conn_in_or_default : forall cs c,
+  In (find_conn cs c) cs \/ find_conn cs c = {| cn_c := c; cn_inbox := []; cn_acq := []; cn_tasks := []; cn_ended := false |}.
+Proof.
+  intros cs c. unfold find_conn. destruct (find (fun x => N.eqb (cn_c x) c) cs) as [x|] eqn:E; [|right; reflexivity].
+  left. apply find_some in E. tauto.
+Qed.
+
+(* replacing the record of connection c *)
+Lemma set_conn_inv : forall cs h x h',
+  CInv cs h -> incl (cn_acq x) (cn_tasks x) ->
+  Permutation h' (items x ++ flat (other (cn_c x) cs)) ->
+  CInv (set_conn cs x) h'.
+Proof.
+  intros cs h x h' [Hnd Hh Hacq] Hx Hp. constructor.
+  - unfold set_conn. cbn [map]. constructor; [apply other_ids | apply other_nodup; exact Hnd].
+  - exact Hp.
+  - intros cn [Hcn|Hcn]; [subst; exact Hx|]. apply filter_In in Hcn. apply Hacq. tauto.
+Qed.
+
+Lemma deliver_inv : forall g cs h, CInv cs h -> CInv (deliver cs g) (gh_grants h g).
+Proof.
+  induction g as [|[[c k] r] g IH]; intros cs h HI; [exact HI|].
+  unfold deliver, gh_grants in *. cbn [fold_left]. apply IH. change (cr (c, k, r)) with (c, r). cbn [fst snd].
+  set (old := find_conn cs c).
+  apply (set_conn_inv cs h); [exact HI | |].
+  - cbn [cn_acq cn_tasks]. destruct (find_conn_in_or_default cs c) as [Hin|Hd]; [exact (ci_acq _ _ HI _ Hin) | fold old in Hd; rewrite Hd; intros y []].
+  - cbn [cn_c]. unfold items at 1. cbn [cn_c cn_inbox cn_tasks].
+    pose proof (flat_split' cs c (ci_nd _ _ HI)) as Hs. fold old in Hs.
+    eapply perm_trans; [apply perm_skip; eapply perm_trans; [exact (ci_h _ _ HI) | exact Hs]|].
+    rewrite <- !app_assoc, !map_app. cbn [map app].
+    rewrite <- !app_assoc. cbn [app].
+    apply Permutation_cons_app. rewrite !app_assoc. apply Permutation_refl.
+Qed.
+
+Fixpoint ghost_after (s : st) (h : list (N * N)) (ms : list msg) : st * list (N * N) :=
+  match ms with
+  | [] => (s, h)
+  | m :: tl => let '(s', g) := step s m in ghost_after s' (gh_grants (gh_msg h m) g) tl
+  end.
+Lemma foreign_from_app : forall ms1 ms2 s h,
+  foreign_from s h (ms1 ++ ms2) =
+  foreign_from s h ms1 || foreign_from (fst (ghost_after s h ms1)) (snd (ghost_after s h ms1)) ms2.
+Proof.
+  induction ms1 as [|m tl IH]; intros ms2 s h; [reflexivity|].
+  cbn [app]. rewrite !foreign_from_cons. cbn [ghost_after]. destruct (step s m) as [s' g]. cbn [fst snd].
+  rewrite IH, orb_assoc. reflexivity.
+Qed.
+
+Definition benign_here (x : cst) (e : cev) : Prop :=
+  match e with
+  | CEnd c => let cn := find_conn (c_conns x) c in cn_ended cn = true \/ (cn_tasks cn = [] /\ cn_inbox cn = [])
+  | _ => True
+  end.
+
+Lemma remove_one_N_perm : forall r l, In r l -> Permutation l (r :: remove_one_N r l).
+Proof.
+  intros r. induction l as [|y t IH]; intros H; [destruct H|]. cbn [remove_one_N].
+  destruct (N.eqb r y) eqn:E; [apply N.eqb_eq in E; subst; apply Permutation_refl|].
+  destruct H as [H|H]; [subst; rewrite N.eqb_refl in E; discriminate|].
+  eapply perm_trans; [apply perm_skip; apply IH; exact H | apply perm_swap].
+Qed.
+Lemma remove_one_N_incl : forall r l, incl (remove_one_N r l) l.
+Proof.
+  intros r. induction l as [|y t IH]; intros z Hz; [destruct Hz|]. cbn [remove_one_N] in Hz.
+  destruct (N.eqb r y); [right; exact Hz|]. destruct Hz as [Hz|Hz]; [left; exact Hz | right; apply IH; exact Hz].
+Qed.
+Lemma insert_sorted_In : forall x l y, In y (insert_sorted x l) -> y = x \/ In y l.
+Proof.
+  intros x. induction l as [|z t IH]; intros y H; cbn [insert_sorted] in H.
+  - destruct H as [H|[]]. left. auto.
+  - destruct (N.eqb x z); [right; exact H|]. destruct (N.ltb x z).
+    + destruct H as [H|H]; [left; auto | right; exact H].
+    + destruct H as [H|H]; [right; left; exact H|]. apply IH in H. destruct H; [left; auto | right; right; auto].
+Qed.
+
+(* one benign connection event: the messages it causes contain no release by a non-holder *)
+Lemma cstep_benign : forall x h e x' ms gss,
+  CInv (c_conns x) h -> benign_here x e -> cstep x e = (x', ms, gss) ->
+  foreign_from (c_svc x) h ms = false /\
+  c_svc x' = fst (ghost_after (c_svc x) h ms) /\ CInv (c_conns x') (snd (ghost_after (c_svc x) h ms)).
+Proof.
+  intros x h e x' ms gss HI Hb H. unfold cstep in H.
+  destruct (cev_msgs (c_conns x) e) as [ms0 cs1] eqn:Em.
+  destruct (steps (c_svc x) ms0) as [s' gss0] eqn:Es. inversion H; subst x' ms gss. clear H. cbn [c_svc c_conns].
+  assert (Hsingle : forall m cs1', ms0 = [m] -> bad_unlock (c_svc x) h m = false -> CInv cs1' (gh_msg h m) -> cs1 = cs1' ->
+            foreign_from (c_svc x) h ms0 = false /\ s' = fst (ghost_after (c_svc x) h ms0) /\
+            CInv (deliver cs1 (concat gss0)) (snd (ghost_after (c_svc x) h ms0))).
+  { intros m cs1' -> Hbad HI1 <-. cbn [steps] in Es. destruct (step (c_svc x) m) as [s1 g1] eqn:E1. inversion Es; subst.
+    rewrite foreign_from_cons, Hbad, E1. cbn [fst snd foreign_from orb ghost_after]. rewrite E1. cbn [fst snd concat]. rewrite app_nil_r.
+    split; [reflexivity|]. split; [reflexivity|]. apply deliver_inv. exact HI1. }
+  assert (Hnone : forall cs1', ms0 = [] -> CInv cs1' h -> cs1 = cs1' ->
+            foreign_from (c_svc x) h ms0 = false /\ s' = fst (ghost_after (c_svc x) h ms0) /\
+            CInv (deliver cs1 (concat gss0)) (snd (ghost_after (c_svc x) h ms0))).
+  { intros cs1' -> HI1 <-. cbn [steps] in Es. inversion Es; subst. cbn. split; [reflexivity|]. split; [reflexivity|]. exact HI1. }
+  destruct e as [c rooms|c|c r|c]; cbn [cev_msgs] in Em.
+  - destruct (cn_ended (find_conn (c_conns x) c)); inversion Em; subst.
+    + apply (Hnone (c_conns x)); auto.
+    + apply (Hsingle (Request c rooms 0) (c_conns x)); auto.
+  - destruct (cn_ended (find_conn (c_conns x) c)) eqn:Ee; [inversion Em; subst; apply (Hnone (c_conns x)); auto|].
+    destruct (cn_inbox (find_conn (c_conns x) c)) as [|r rest] eqn:Ei; inversion Em; subst; [apply (Hnone (c_conns x)); auto|].
+    eapply Hnone; [reflexivity | | reflexivity].
+    set (old := find_conn (c_conns x) c) in *.
+    apply (set_conn_inv (c_conns x) h); [exact HI | |].
+    + cbn [cn_acq cn_tasks]. intros y Hy. apply insert_sorted_In in Hy. destruct Hy as [Hy|Hy]; [left; auto|right].
+      destruct (find_conn_in_or_default (c_conns x) c) as [Hin|Hd]; [exact (ci_acq _ _ HI _ Hin y Hy) | fold old in Hd; rewrite Hd in Hy; destruct Hy].
+    + cbn [cn_c]. unfold items at 1. cbn [cn_c cn_inbox cn_tasks].
+      pose proof (flat_split' (c_conns x) c (ci_nd _ _ HI)) as Hs. fold old in Hs. rewrite Ei in Hs.
+      eapply perm_trans; [exact (ci_h _ _ HI)|]. eapply perm_trans; [exact Hs|]. apply Permutation_app_tail. apply Permutation_map.
+      cbn [app]. apply Permutation_sym. eapply perm_trans; [apply Permutation_app_comm|]. cbn [app]. apply perm_skip. apply Permutation_app_comm.
+  - set (old := find_conn (c_conns x) c) in *. destruct (memN r (cn_tasks old)) eqn:Er; inversion Em; subst; [|apply (Hnone (c_conns x)); auto].
+    apply memN_In in Er.
+    pose proof (flat_split' (c_conns x) c (ci_nd _ _ HI)) as Hs. fold old in Hs.
+    assert (Hin : In (c, r) h).
+    { eapply Permutation_in; [apply Permutation_sym; eapply perm_trans; [exact (ci_h _ _ HI) | exact Hs]|].
+      apply in_or_app. left. apply in_map. apply in_or_app. right. exact Er. }
+    eapply Hsingle; [reflexivity | | | reflexivity].
+    + cbn [bad_unlock]. apply mem_pair_In in Hin. rewrite Hin. reflexivity.
+    + cbn [gh_msg]. apply (set_conn_inv (c_conns x) h); [exact HI | |].
+      * cbn [cn_acq cn_tasks]. intros y Hy. apply removeN_In in Hy. destruct Hy as [Hy Hne].
+        assert (Hyt : In y (cn_tasks old)).
+        { destruct (find_conn_in_or_default (c_conns x) c) as [Hi|Hd]; [exact (ci_acq _ _ HI _ Hi y Hy) | fold old in Hd; rewrite Hd in Hy; destruct Hy]. }
+        pose proof (remove_one_N_perm r _ Er) as Hp. apply (Permutation_in _ Hp) in Hyt. destruct Hyt as [Hyt|Hyt]; [congruence | exact Hyt].
+      * cbn [cn_c]. unfold items at 1. cbn [cn_c cn_inbox cn_tasks].
+        apply Permutation_cons_inv with (a := (c, r)).
+        eapply perm_trans; [apply Permutation_sym; apply remove_one_perm_cons; exact Hin|].
+        eapply perm_trans; [exact (ci_h _ _ HI)|]. eapply perm_trans; [exact Hs|].
+        change ((c, r) :: map (pair c) (cn_inbox old ++ remove_one_N r (cn_tasks old)) ++ flat (other c (c_conns x)))
+          with (((c, r) :: map (pair c) (cn_inbox old ++ remove_one_N r (cn_tasks old))) ++ flat (other c (c_conns x))).
+        apply Permutation_app_tail. change ((c, r) :: map (pair c) (cn_inbox old ++ remove_one_N r (cn_tasks old))) with (map (pair c) (r :: cn_inbox old ++ remove_one_N r (cn_tasks old))).
+        apply Permutation_map. eapply perm_trans; [apply Permutation_app_head; apply (remove_one_N_perm r _ Er)|].
+        apply Permutation_sym. apply Permutation_middle.
+  - cbn [benign_here] in Hb.
+    destruct (cn_ended (find_conn (c_conns x) c)) eqn:Ee; [inversion Em; subst; apply (Hnone (c_conns x)); auto|].
+    destruct Hb as [Hb|[Ht Hi]]; [discriminate|].
+    assert (Ha : cn_acq (find_conn (c_conns x) c) = []).
+    { destruct (cn_acq (find_conn (c_conns x) c)) as [|y t] eqn:Ea; [reflexivity|]. exfalso.
+      destruct (find_conn_in_or_default (c_conns x) c) as [Hin|Hd].
+      - pose proof (ci_acq _ _ HI _ Hin y) as Hy. rewrite Ea, Ht in Hy. apply Hy. left. reflexivity.
+      - rewrite Hd in Ea. discriminate. }
+    rewrite Ha in Em. cbn [map app] in Em. inversion Em; subst.
+    eapply Hsingle; [reflexivity | reflexivity | | reflexivity].
+    cbn [gh_msg]. apply (set_conn_inv (c_conns x) h); [exact HI | cbn [cn_acq]; intros y [] |].
+    cbn [cn_c]. unfold items at 1. cbn [cn_c cn_inbox cn_tasks].
+    pose proof (flat_split' (c_conns x) c (ci_nd _ _ HI)) as Hs.
+    eapply perm_trans; [exact (ci_h _ _ HI) | exact Hs].
+Qed.
+
+Fixpoint all_benign (x : cst) (es : list cev) : Prop :=
+  match es with
+  | [] => True
+  | e :: tl => benign_here x e /\ all_benign (fst (fst (cstep x e))) tl
+  end.
+Definition msgs_of (x : cst) (es : list cev) : list msg :=
+  flat_map (fun y : cst * list msg * list (list grant) => snd (fst y)) (crun x es).
+
+Theorem conn_disciplined : forall es x h,
+  CInv (c_conns x) h -> all_benign x es -> foreign_from (c_svc x) h (msgs_of x es) = false.
+Proof.
+  induction es as [|e tl IH]; intros x h HI Hb; [reflexivity|].
+  unfold msgs_of. cbn [crun all_benign] in *. destruct (cstep x e) as [[x' ms] gss] eqn:Ec. cbn [fst snd flat_map] in *.
+  destruct Hb as [Hb1 Hb2]. destruct (cstep_benign x h e x' ms gss HI Hb1 Ec) as (F & S & I').
+  rewrite foreign_from_app, F. cbn [orb]. rewrite <- S. apply (IH x' _ I' Hb2).
+Qed.
+
+Lemma no12_benign : forall es x, no12 (known_conn_from x es) -> all_benign x es.
+Proof.
+  induction es as [|e tl IH]; intros x H; [exact I|]. cbn [known_conn_from all_benign] in *.
+  apply no12_app in H. destruct H as [H1 H2]. split; [|apply IH; exact H2].
+  destruct e as [c rooms|c|c r|c]; cbn [benign_here]; auto.
+  destruct (cn_ended (find_conn (c_conns x) c)); [left; reflexivity | right].
+  destruct (cn_tasks (find_conn (c_conns x) c)); [|destruct H1 as [H1 _]; cbn in H1; discriminate].
+  destruct (cn_inbox (find_conn (c_conns x) c)); [auto|]. destruct H1 as [_ H1]. cbn in H1. discriminate.
+Qed.
+
+(* a connection-level history in which no connection ends while one of its room tasks runs or while a
+   grant waits in its channel causes a service history without any release by a non-holder; hence
+   (outside_known) the service history is exclusive, bounded, once, never lost *)
+Theorem conn_benign_service_ok : forall max es,
+  known_C20 (CConn max es) = [] ->
+  foreign_lock max (conn_trace max es) = false /\
+  spec_C20 (CLock max (conn_trace max es)) (run_C20 (CLock max (conn_trace max es))) = true.
+Proof.
+  intros max es Hk. cbn [known_C20] in Hk.
+  assert (Hn : no12 (known_conn_from (cinit max) es)).
+  { unfold dedup12 in Hk. unfold no12. destruct (existsb (Z.eqb 1) _); [discriminate|]. destruct (existsb (Z.eqb 2) _); [discriminate|]. auto. }
+  assert (Hf : foreign_lock max (conn_trace max es) = false).
+  { unfold foreign_lock, conn_trace. apply (conn_disciplined es (cinit max) []); [|apply no12_benign; exact Hn].
+    constructor; cbn; [constructor | constructor | intros cn []]. }
+  split; [exact Hf|]. apply outside_known. cbn [known_C20]. unfold known_lock. rewrite Hf. reflexivity.
+Qed.
+
+(* ------------------------------------------------------------------ the pieces of the connection code the harness plays itself *)
+(* what model/Lock.v (and the harness: loop branch, end of connection, quiescence by channel capacity)
+   assume about the source, re-read from the source on every run (gen/C20ConnFacts.v) *)
+Lemma conn_facts_as_modelled :
+  unlock_carries_owner = false /\ Nat.ltb lock_channel_size 8 = true /\ task_always_unlocks = true /\
+  loop_spawns_oldest_grant = true /\ end_unlocks_acquired = true /\ end_drains_lock_channel = false.
+Proof. vm_compute. repeat split. Qed.
+
 (* ------------------------------------------------------------------ witnesses *)
 Definition k1_witness : c20case :=
   CLock 1 [Request 1 [5] 0; Unlock 1 5; Request 2 [5] 0; Unlock 1 5; Request 3 [5] 0]%N.
 Lemma refuted : spec_C20 k1_witness (run_C20 k1_witness) = false /\ known_C20 k1_witness = [1%Z].
 Proof. vm_compute. split; reflexivity. Qed.
 
+(* the same defect reached through the connection code alone: a connection ends while its room task
+   runs, cleanup unlocks, the room is granted again, the old task unlocks again *)
+Definition k1_conn_witness : c20case :=
+  CConn 1 [CRequest 1 [5]; CTake 1; CEnd 1; CRequest 2 [5]; CTake 2; CFinish 1 5; CRequest 3 [5]; CTake 3]%N.
+(* K2: a grant that waits in the channel of a connection that ends is never released *)
+Definition k2_conn_witness : c20case :=
+  CConn 2 [CRequest 1 [5]; CEnd 1; CRequest 9 [5]]%N.
+Lemma refuted_conn :
+  spec_C20 k1_conn_witness (run_C20 k1_conn_witness) = false /\ known_C20 k1_conn_witness = [1%Z] /\
+  spec_C20 k2_conn_witness (run_C20 k2_conn_witness) = false /\ known_C20 k2_conn_witness = [2%Z].
+Proof. vm_compute. repeat split. Qed.
+
 Definition ok_witness : c20case :=
   CLock 2 [Request 1 [5; 6; 7] 0; Request 2 [5; 6] 0; Unlock 1 7; Unlock 1 6; Unlock 3 9; Unlock 1 5; Unlock 2 6; DropChan 2 0; Unlock 2 5]%N.
 Lemma nonvacuous : known_C20 ok_witness = [] /\
-  run_grants ok_witness = [[(1, 0, 7); (1, 0, 6)]; []; [(1, 0, 5)]; [(2, 0, 6)]; []; [(2, 0, 5)]; []; []; []]%N.
+  run_from (init 2) [Request 1 [5; 6; 7] 0; Request 2 [5; 6] 0; Unlock 1 7; Unlock 1 6; Unlock 3 9; Unlock 1 5; Unlock 2 6; DropChan 2 0; Unlock 2 5]%N = [[(1, 0, 7); (1, 0, 6)]; []; [(1, 0, 5)]; [(2, 0, 6)]; []; [(2, 0, 5)]; []; []; []]%N.
 Proof. vm_compute. split; reflexivity. Qed.
